@@ -1,2 +1,519 @@
-/* ds_slist.h - TODO */
-static void ds_slist_case(vh_rng_t *rng) { (void)rng; vh_inconclusive("not-implemented"); }
+/* ds_slist.h - ares_slist_t (skip list) vs. a plain set-of-ids model.
+ *
+ * Value = {id, key}; ids are unique per case, keys come from a small range so that duplicates are
+ * common.  The skip list is created with a real ares_rand_state; the random bytes the library draws
+ * for its coin flips come from a per-case seeded stream (arc4random_buf / rand are defined here and
+ * take precedence over libc in the harness executable), so a case is a pure function of its seed and
+ * the tower heights can be biased tall or flat per case.
+ *
+ * Oracle after every operation:
+ *   forward walk (node_first/node_next) is non-decreasing under cmp, visits each live id exactly once
+ *   and nothing else; backward walk (node_last/node_prev) is the exact reverse; len == model count;
+ *   first_val/last_val carry the minimum/maximum key; find(k) returns a node whose value compares
+ *   equal to k iff the model holds such a key; the destructor in force ran exactly once for every
+ *   destroyed element and never for a claimed one.
+ */
+
+typedef struct {
+  uint32_t           id;
+  int                key;
+  ares_slist_node_t *node; /* handle returned by insert; stays valid across reinsert */
+  int                live; /* in the list according to the model */
+  size_t             pos;  /* index in dss_live[] */
+} dss_elem_t;
+
+#define DSS_MAXID (DS_MAXOPS + 8)
+static dss_elem_t dss_pool[DSS_MAXID];
+static uint32_t   dss_live[DSS_MAXID];
+static size_t     dss_nlive;
+static uint32_t   dss_next_id;
+static uint8_t    dss_des[2][DSS_MAXID];    /* calls seen, per destructor */
+static uint8_t    dss_expect[2][DSS_MAXID]; /* calls the model expects */
+static uint32_t   dss_seen[DSS_MAXID];      /* walk stamp */
+static uint32_t   dss_stamp;
+static uint32_t   dss_fwd[DSS_MAXID];
+
+/* ---- library-side randomness: per-case seeded, optionally biased ---- */
+static vh_rng_t dss_lib_rng;
+static int      dss_lib_bias; /* 0 fair, 1 mostly ones (tall towers), 2 mostly zeros (flat) */
+
+static unsigned char dss_lib_byte(void)
+{
+  uint64_t a = vh_rand64(&dss_lib_rng);
+  uint64_t b = vh_rand64(&dss_lib_rng);
+  if (dss_lib_bias == 1) {
+    a |= b;
+  } else if (dss_lib_bias == 2) {
+    a &= b;
+  }
+  return (unsigned char)(a >> 24);
+}
+
+void arc4random_buf(void *buf, size_t n)
+{
+  unsigned char *p = (unsigned char *)buf;
+  size_t         i;
+  for (i = 0; i < n; i++) {
+    p[i] = dss_lib_byte();
+  }
+}
+
+/* the deterministic flavor keys an RC4 stream from srand(0)/rand() */
+void srand(unsigned int seed)
+{
+  (void)seed;
+}
+
+int rand(void)
+{
+  return (int)dss_lib_byte() | ((int)dss_lib_byte() << 8);
+}
+
+static void dss_destruct_a(void *p)
+{
+  dss_elem_t *e = (dss_elem_t *)p;
+  if (e->id < DSS_MAXID && dss_des[0][e->id] < 255) {
+    dss_des[0][e->id]++;
+  }
+}
+
+static void dss_destruct_b(void *p)
+{
+  dss_elem_t *e = (dss_elem_t *)p;
+  if (e->id < DSS_MAXID && dss_des[1][e->id] < 255) {
+    dss_des[1][e->id]++;
+  }
+}
+
+static int dss_cmp(const void *a, const void *b)
+{
+  const dss_elem_t *x = (const dss_elem_t *)a, *y = (const dss_elem_t *)b;
+  if (x->key != y->key) {
+    return x->key < y->key ? -1 : 1;
+  }
+  return 0;
+}
+
+static void dss_model_add(dss_elem_t *e)
+{
+  e->live               = 1;
+  e->pos                = dss_nlive;
+  dss_live[dss_nlive++] = e->id;
+}
+
+static void dss_model_del(dss_elem_t *e)
+{
+  uint32_t last      = dss_live[dss_nlive - 1];
+  dss_live[e->pos]   = last;
+  dss_pool[last].pos = e->pos;
+  dss_nlive--;
+  e->live = 0;
+  e->node = NULL;
+}
+
+static int dss_compare(ares_slist_t *list, const char *after)
+{
+  ares_slist_node_t *n;
+  const dss_elem_t  *prev = NULL;
+  size_t             cnt  = 0;
+  size_t             k;
+  int                minkey = 0, maxkey = 0;
+
+  if (ares_slist_len(list) != dss_nlive) {
+    vh_violation("ds:slist:len", "after %s: len=%zu model=%zu", after, ares_slist_len(list), dss_nlive);
+    return 0;
+  }
+  dss_stamp++;
+  for (n = ares_slist_node_first(list); n != NULL; n = ares_slist_node_next(n)) {
+    const dss_elem_t *e = (const dss_elem_t *)ares_slist_node_val(n);
+    if (cnt >= dss_nlive) {
+      vh_violation("ds:slist:extra", "after %s: forward walk yields more than the %zu live elements", after, dss_nlive);
+      return 0;
+    }
+    if (e == NULL || e < dss_pool || e >= dss_pool + DSS_MAXID) {
+      vh_violation("ds:slist:foreign-value", "after %s: node %zu carries a value never inserted", after, cnt);
+      return 0;
+    }
+    if (!e->live) {
+      vh_violation("ds:slist:resurrected", "after %s: id %u (key %d) was removed but is still reachable", after, e->id,
+                   e->key);
+      return 0;
+    }
+    if (dss_seen[e->id] == dss_stamp) {
+      vh_violation("ds:slist:duplicated", "after %s: id %u (key %d) reached twice in one walk", after, e->id, e->key);
+      return 0;
+    }
+    dss_seen[e->id] = dss_stamp;
+    if (prev != NULL && dss_cmp(prev, e) > 0) {
+      vh_violation("ds:slist:unsorted", "after %s: key %d (id %u) precedes key %d (id %u) at position %zu", after,
+                   prev->key, prev->id, e->key, e->id, cnt);
+      return 0;
+    }
+    if (ares_slist_node_parent(n) != list) {
+      vh_violation("ds:slist:parent", "after %s: node of id %u reports a different parent", after, e->id);
+      return 0;
+    }
+    if (e->node != n) {
+      vh_violation("ds:slist:node-identity", "after %s: id %u reached through a node other than the one insert returned",
+                   after, e->id);
+      return 0;
+    }
+    dss_fwd[cnt++] = e->id;
+    prev           = e;
+  }
+  if (cnt != dss_nlive) {
+    /* name one that is missing */
+    for (k = 0; k < dss_nlive; k++) {
+      if (dss_seen[dss_live[k]] != dss_stamp) {
+        break;
+      }
+    }
+    vh_violation("ds:slist:lost", "after %s: forward walk reached %zu of %zu live elements (e.g. id %u key %d missing)",
+                 after, cnt, dss_nlive, k < dss_nlive ? dss_live[k] : 0, k < dss_nlive ? dss_pool[dss_live[k]].key : 0);
+    return 0;
+  }
+  /* backward walk = exact reverse */
+  k = cnt;
+  for (n = ares_slist_node_last(list); n != NULL; n = ares_slist_node_prev(n)) {
+    const dss_elem_t *e = (const dss_elem_t *)ares_slist_node_val(n);
+    if (k == 0) {
+      vh_violation("ds:slist:backward", "after %s: backward walk longer than forward walk (%zu)", after, cnt);
+      return 0;
+    }
+    k--;
+    if (e == NULL || e < dss_pool || e >= dss_pool + DSS_MAXID || e->id != dss_fwd[k]) {
+      vh_violation("ds:slist:backward", "after %s: backward walk differs from reversed forward walk at position %zu", after,
+                   k);
+      return 0;
+    }
+  }
+  if (k != 0) {
+    vh_violation("ds:slist:backward", "after %s: backward walk from node_last stops after %zu of %zu elements", after,
+                 cnt - k, cnt);
+    return 0;
+  }
+  /* first/last */
+  if (dss_nlive == 0) {
+    if (ares_slist_node_first(list) != NULL || ares_slist_node_last(list) != NULL || ares_slist_first_val(list) != NULL ||
+        ares_slist_last_val(list) != NULL) {
+      vh_violation("ds:slist:firstlast", "after %s: first/last non-NULL on an empty list", after);
+      return 0;
+    }
+    return 1;
+  }
+  minkey = maxkey = dss_pool[dss_live[0]].key;
+  for (k = 1; k < dss_nlive; k++) {
+    int key = dss_pool[dss_live[k]].key;
+    if (key < minkey) {
+      minkey = key;
+    }
+    if (key > maxkey) {
+      maxkey = key;
+    }
+  }
+  {
+    const dss_elem_t *f = (const dss_elem_t *)ares_slist_first_val(list);
+    const dss_elem_t *l = (const dss_elem_t *)ares_slist_last_val(list);
+    if (f == NULL || l == NULL || f->key != minkey || l->key != maxkey) {
+      vh_violation("ds:slist:firstlast", "after %s: first_val key %d / last_val key %d, model min %d max %d", after,
+                   f ? f->key : -1, l ? l->key : -1, minkey, maxkey);
+      return 0;
+    }
+  }
+  return 1;
+}
+
+static int dss_check_destructed(const char *after)
+{
+  uint32_t i;
+  int      d;
+  for (d = 0; d < 2; d++) {
+    if (memcmp(dss_des[d], dss_expect[d], dss_next_id) == 0) {
+      continue;
+    }
+    for (i = 0; i < dss_next_id; i++) {
+      if (dss_des[d][i] != dss_expect[d][i]) {
+        vh_violation("ds:slist:destructor", "after %s: id %u destructed %u times by destructor %c, model %u", after, i,
+                     dss_des[d][i], 'A' + d, dss_expect[d][i]);
+        return 0;
+      }
+    }
+  }
+  return 1;
+}
+
+static int dss_find_check(ares_slist_t *list, int key, const char *what)
+{
+  dss_elem_t         probe;
+  ares_slist_node_t *n;
+  size_t             k;
+  int                present = 0;
+  memset(&probe, 0, sizeof(probe));
+  probe.id  = 0xffffffffU;
+  probe.key = key;
+  for (k = 0; k < dss_nlive; k++) {
+    if (dss_pool[dss_live[k]].key == key) {
+      present = 1;
+      break;
+    }
+  }
+  n = ares_slist_node_find(list, &probe);
+  vh_count(present ? "slist_find_hit" : "slist_find_miss");
+  if (present && n == NULL) {
+    vh_violation("ds:slist:find-missed", "%s: find(key %d) returned NULL but id %u holds that key", what, key, dss_live[k]);
+    return 0;
+  }
+  if (!present && n != NULL) {
+    const dss_elem_t *e = (const dss_elem_t *)ares_slist_node_val(n);
+    vh_violation("ds:slist:find-phantom", "%s: find(key %d) returned a node (key %d) but no live element has that key", what,
+                 key, e ? e->key : -1);
+    return 0;
+  }
+  if (n != NULL) {
+    const dss_elem_t *e = (const dss_elem_t *)ares_slist_node_val(n);
+    if (e == NULL || e < dss_pool || e >= dss_pool + DSS_MAXID || !e->live || e->key != key) {
+      vh_violation("ds:slist:find-wrong", "%s: find(key %d) returned a node with key %d (live=%d)", what, key,
+                   e ? e->key : -1, e ? e->live : -1);
+      return 0;
+    }
+  }
+  return 1;
+}
+
+enum {
+  DSS_INSERT = 1,
+  DSS_FIND,
+  DSS_CLAIM,
+  DSS_DESTROY_NODE,
+  DSS_REINSERT,
+  DSS_POP_FIRST,
+  DSS_POP_LAST,
+  DSS_REPLACE_DES,
+  DSS_REINSERT_SAME,
+  DSS_BURST,
+  DSS_DESTROY
+};
+
+static void ds_slist_case(vh_rng_t *rng)
+{
+  ares_rand_state *rs;
+  ares_slist_t    *list;
+  int              nops     = vh_chance(rng, 1, 8) ? vh_range(rng, 200, 1500) : vh_range(rng, 4, 120);
+  int              bias     = vh_range(rng, 0, 3); /* 0 balanced, 1 grow, 2 timeout queue, 3 reinsert-heavy */
+  int              keyrange = vh_chance(rng, 1, 4) ? 4 : vh_chance(rng, 1, 2) ? 24 : 1000;
+  int              curdes   = vh_range(rng, -1, 1); /* -1 none, 0 A, 1 B */
+  int              clock    = 0;
+  int              i;
+  char             what[96];
+  vh_sb_t          sb = { 0 };
+
+  vh_rng_seed(&dss_lib_rng, vh_rand64(rng));
+  dss_lib_bias = vh_range(rng, 0, 2);
+  memset(dss_des, 0, sizeof(dss_des));
+  memset(dss_expect, 0, sizeof(dss_expect));
+  dss_nlive   = 0;
+  dss_next_id = 0;
+
+  rs = ares_init_rand_state();
+  if (rs == NULL) {
+    vh_inconclusive("oom");
+    return;
+  }
+  list = ares_slist_create(rs, dss_cmp, curdes < 0 ? NULL : curdes == 0 ? dss_destruct_a : dss_destruct_b);
+  if (list == NULL) {
+    ares_destroy_rand_state(rs);
+    vh_inconclusive("oom");
+    return;
+  }
+  if (vh_want_sample()) {
+    vh_sb_printf(&sb, "{\"container\":\"slist\",\"bias\":%d,\"keyrange\":%d,\"coin\":%d,\"ops\":[", bias, keyrange,
+                 dss_lib_bias);
+  }
+
+  for (i = 0; i < nops && !vh_case_viol; i++) {
+    int op;
+    int r = vh_range(rng, 0, 99);
+    int ins_w = bias == 1 ? 60 : bias == 2 ? 40 : bias == 3 ? 25 : 40;
+
+    if (r < ins_w) {
+      op = DSS_INSERT;
+    } else if (r < ins_w + 12) {
+      op = DSS_FIND;
+    } else if (r < 92) {
+      static const int rm[] = { DSS_CLAIM, DSS_DESTROY_NODE, DSS_REINSERT, DSS_POP_FIRST, DSS_POP_LAST };
+      op                    = rm[vh_below(rng, 5)];
+      if (bias == 2) {
+        op = vh_chance(rng, 2, 3) ? DSS_POP_FIRST : vh_chance(rng, 1, 2) ? DSS_REINSERT : DSS_CLAIM;
+      } else if (bias == 3 && vh_chance(rng, 2, 3)) {
+        op = DSS_REINSERT;
+      }
+    } else if (r < 94) {
+      op = DSS_REPLACE_DES;
+    } else if (r < 96) {
+      op = DSS_REINSERT_SAME;
+    } else {
+      op = DSS_BURST;
+    }
+    if (dss_next_id >= DS_MAXOPS - 40) {
+      break;
+    }
+    OP(op);
+    if (sb.b && i < 40) {
+      vh_sb_printf(&sb, "%s%d", i ? "," : "", op);
+    }
+    snprintf(what, sizeof(what), "op#%d kind=%d n=%zu", i, op, dss_nlive);
+    clock += vh_range(rng, 0, 3);
+
+    switch (op) {
+      case DSS_INSERT:
+      case DSS_BURST:
+        {
+          int cnt = op == DSS_BURST ? vh_range(rng, 8, 30) : 1;
+          int same = vh_chance(rng, 1, 2);
+          int key0 = vh_below(rng, (uint32_t)keyrange);
+          while (cnt-- > 0 && !vh_case_viol) {
+            dss_elem_t *e = &dss_pool[dss_next_id];
+            memset(e, 0, sizeof(*e));
+            e->id  = dss_next_id;
+            e->key = bias == 2 ? clock + (int)vh_below(rng, (uint32_t)keyrange)
+                     : (op == DSS_BURST && same) ? key0
+                                                 : (int)vh_below(rng, (uint32_t)keyrange);
+            e->node = ares_slist_insert(list, e);
+            if (e->node == NULL) {
+              vh_inconclusive("oom");
+              goto teardown;
+            }
+            dss_next_id++;
+            dss_model_add(e);
+            vh_count("slist_insert");
+            if (ares_slist_node_val(e->node) != e) {
+              vh_violation("ds:slist:insert-value", "%s: node returned by insert carries another value", what);
+            }
+          }
+          break;
+        }
+      case DSS_FIND:
+        dss_find_check(list, (int)vh_below(rng, (uint32_t)keyrange + 2) - 1 + (bias == 2 ? clock : 0), what);
+        break;
+      case DSS_CLAIM:
+      case DSS_DESTROY_NODE:
+      case DSS_POP_FIRST:
+      case DSS_POP_LAST:
+        {
+          dss_elem_t        *e;
+          ares_slist_node_t *n;
+          if (dss_nlive == 0) {
+            /* NULL node is documented as a no-op */
+            if (ares_slist_node_claim(NULL) != NULL) {
+              vh_violation("ds:slist:claim-null", "%s: claim(NULL) returned a value", what);
+            }
+            ares_slist_node_destroy(NULL);
+            break;
+          }
+          if (op == DSS_POP_FIRST) {
+            n = ares_slist_node_first(list);
+            e = (dss_elem_t *)ares_slist_node_val(n);
+          } else if (op == DSS_POP_LAST) {
+            n = ares_slist_node_last(list);
+            e = (dss_elem_t *)ares_slist_node_val(n);
+          } else {
+            e = &dss_pool[dss_live[vh_below(rng, (uint32_t)dss_nlive)]];
+            n = e->node;
+          }
+          if (n == NULL || e == NULL || e < dss_pool || e >= dss_pool + DSS_MAXID || !e->live) {
+            vh_violation("ds:slist:firstlast", "%s: node_first/node_last gave no live element on a list of %zu", what,
+                         dss_nlive);
+            break;
+          }
+          if (op == DSS_DESTROY_NODE || (op != DSS_CLAIM && vh_chance(rng, 1, 2))) {
+            ares_slist_node_destroy(n);
+            if (curdes >= 0) {
+              dss_expect[curdes][e->id]++;
+            }
+            vh_count("slist_node_destroy");
+          } else {
+            void *v = ares_slist_node_claim(n);
+            if (v != e) {
+              vh_violation("ds:slist:claim-value", "%s: claim of id %u returned another value", what, e->id);
+            }
+            vh_count("slist_claim");
+          }
+          dss_model_del(e);
+          ds_removals++;
+          break;
+        }
+      case DSS_REINSERT:
+      case DSS_REINSERT_SAME:
+        {
+          dss_elem_t *e;
+          if (dss_nlive == 0) {
+            ares_slist_node_reinsert(NULL);
+            break;
+          }
+          e = &dss_pool[dss_live[vh_below(rng, (uint32_t)dss_nlive)]];
+          if (op == DSS_REINSERT) {
+            /* the value's key changes in place, then the node is told to find its new position */
+            int nk = bias == 2 ? clock + (int)vh_below(rng, (uint32_t)keyrange) : (int)vh_below(rng, (uint32_t)keyrange);
+            if (vh_chance(rng, 1, 4)) {
+              nk = e->key + vh_range(rng, -1, 1);
+            }
+            e->key = nk;
+          }
+          ares_slist_node_reinsert(e->node);
+          vh_count("slist_reinsert");
+          break;
+        }
+      case DSS_REPLACE_DES:
+        curdes = vh_range(rng, -1, 1);
+        ares_slist_replace_destructor(list, curdes < 0 ? NULL : curdes == 0 ? dss_destruct_a : dss_destruct_b);
+        break;
+      default:
+        break;
+    }
+    if (!vh_case_viol) {
+      dss_compare(list, what);
+      vh_count("slist_full_compare");
+    }
+    if (!vh_case_viol) {
+      dss_check_destructed(what);
+    }
+    /* look up a key that is present and one drawn at random */
+    if (!vh_case_viol && dss_nlive && (i & 3) == 0) {
+      dss_find_check(list, dss_pool[dss_live[vh_below(rng, (uint32_t)dss_nlive)]].key, what);
+    }
+  }
+
+teardown:
+  OP(DSS_DESTROY);
+  if (!vh_case_viol) {
+    size_t k;
+    /* find every live key once more before the end */
+    for (k = 0; k < dss_nlive && k < 64 && !vh_case_viol; k++) {
+      dss_find_check(list, dss_pool[dss_live[k]].key, "final");
+    }
+    for (k = 0; k < dss_nlive; k++) {
+      if (curdes >= 0) {
+        dss_expect[curdes][dss_live[k]]++;
+      }
+    }
+  }
+  if (vh_case_viol) {
+    /* structure is suspect: abandon it rather than walking it again */
+    uint32_t k;
+    for (k = 0; k < dss_next_id; k++) {
+      ds_abandon(dss_pool[k].node);
+    }
+    ds_abandon(list);
+  } else {
+    ares_slist_destroy(list);
+  }
+  ares_destroy_rand_state(rs);
+  if (!vh_case_viol) {
+    dss_check_destructed("destroy");
+  }
+  if (sb.b) {
+    vh_sb_printf(&sb, "],\"nops\":%d,\"final_len\":%zu}", ds_nops, dss_nlive);
+    vh_sample(sb.b);
+    free(sb.b);
+  }
+}
